@@ -28,6 +28,7 @@ Tm(op, t) == [k |-> op, t |-> t]
 \* depth-3 exhaustive alphabets: equalities on both shard-key tags, a field comparison, another
 \* operator on a shard-key tag, a time bound
 AtomsSmall == {Teq("host", "a"), Teq("host", "b"), Teq("region", "a"), Fgt(1), Tneq("host", "a"), Tm("tge", 4)}
+AtomsSmall5 == {Teq("host", "a"), Teq("host", "b"), Teq("region", "a"), Fgt(1), Tm("tge", 4)}
 AtomsTiny  == {Teq("host", "a"), Teq("host", "b"), Teq("region", "a"), Fgt(1)}
 \* depth-2 exhaustive alphabet, also the alphabet of the exported behaviours
 AtomsFull == {Teq("host", "a"), Teq("host", "b"), Teq("host", "c"), Teq("region", "a"), Teq("region", "b"),
@@ -72,10 +73,10 @@ SetupsQuick ==
 
 \* for the two-value alphabet
 SetupsQuick2 ==
-  {HashSetup(sk, m, m, {0, 1}, 0) : sk \in ShardKeys, m \in {2, 3}}
-  \cup {RangeSetup(<<"host">>, << K1("b") >>, {0, 1}, 0)}
-  \cup {RangeSetup(<<"host", "region">>, b, {0, 1}, 0) : b \in {<< K1("b") >>, << K2("a", "b"), K2("b", "a") >>}}
-  \cup {AlterSetup(<<"host">>, <<"region">>, 1, 3, 3, {0, 1}, 0), AlterSetup(<<"host", "region">>, <<"host">>, 1, 2, 2, {0, 1}, 0)}
+  {HashSetup(<<>>, 2, 2, {0, 1}, 0), HashSetup(<<"host">>, 3, 3, {0, 1}, 0), HashSetup(<<"region">>, 2, 2, {0, 1}, 0),
+   HashSetup(<<"host", "region">>, 3, 3, {0, 1}, 0),
+   RangeSetup(<<"host">>, << K1("b") >>, {0, 1}, 0), RangeSetup(<<"host", "region">>, << K2("a", "b"), K2("b", "a") >>, {0, 1}, 0),
+   AlterSetup(<<"host">>, <<"region">>, 1, 3, 3, {0, 1}, 0), AlterSetup(<<"host", "region">>, <<"host">>, 1, 2, 2, {0, 1}, 0)}
 
 SetupsThorough ==
   {HashSetup(sk, m, m, {0, 1, 3}, salt) : sk \in ShardKeys, m \in {1, 2, 3, 4}, salt \in {0, 1, 2}}
@@ -97,9 +98,9 @@ SetupsExport ==
 
 SetupsExportQuick ==
   {HashSetup(sk, 3, 4, {0, 1, 3}, 0) : sk \in ShardKeys}
-  \cup {HashSetup(sk, 4, 4, {1}, 0) : sk \in ShardKeys}
-  \cup UNION {{RangeSetup(sk, b, {0, 1}, 0) : b \in BoundsFor(sk)} : sk \in RangeKeys}
-  \cup {RangeSetup(<<"host">>, << K1("b"), K1("c") >>, {0, 1}, -1)}
+  \cup {HashSetup(<<"host">>, 4, 4, {1}, 0), HashSetup(<<"host", "region">>, 8, 8, {1}, 0)}
+  \cup {RangeSetup(<<"host">>, << K1("b"), K1("c") >>, {0, 1}, 0), RangeSetup(<<"host">>, << K1("b") >>, {0, 1}, -1),
+        RangeSetup(<<"host", "region">>, << K2("a", "b"), K2("b", "a") >>, {0, 1}, 1)}
   \cup AlterSetups(3, 4, {0})
 
 \* ---- simulation: a few random trees per step ----------------------------------------------------
